@@ -691,7 +691,10 @@ func getMaybeFileNames(value json.Marshaler) []string {
 		if len(value) == 0 || bytes.Equal(value, nullBytes) {
 			return nil
 		}
-		if !bytes.Contains(value, escapedPathSep) {
+		if !bytes.Contains(value, escapedPathSep) &&
+			bytes.IndexByte(value, '\\') < 0 {
+			// No path separator, and no escape sequence which
+			// could decode to one ("\u002f").
 			return nil
 		}
 		if value[0] == '[' {
